@@ -464,7 +464,8 @@ pub fn is_significant(population: usize, successes: usize) -> bool {
     // The conditions for the validity of hypothesis tests (from which the Wilson score is derived) are stated as follows:
     // https://www.itl.nist.gov/div898/handbook/prc/section2/prc24.htm
     // 1. The sample size is large enough to ensure that the sampling distribution of the sample proportion is approximately normal (N > 30)
-    (population > 30)
+    (successes <= population)
+    && (population > 30)
     // 2. The number of successes and failures are large enough to ensure that the sampling distribution of the sample proportion is approximately normal (x > 5 and n - x > 5)
     && (successes > 5)
     && (population - successes > 5)
